@@ -435,10 +435,10 @@ def classify(err):
 def execute(scn, order):
     """run the real circuit with the blocks created in `order`; returns the raw observation"""
     global _REC, _TIMES
+    edzed.reset_circuit()       # (aborts the previous circuit: before the recorder is armed)
     log = []
     _REC = log
     _TIMES = []
-    edzed.reset_circuit()
     circuit = edzed.get_circuit()
     storage = {}
     blocks = build(scn, order, circuit, storage)
@@ -518,6 +518,8 @@ def all_orders(scn):
 
 
 def run_impl(scn):
+    if 'ainit' in scn:
+        return run_ainit(scn)
     lines, trace, runs, tags = [], [], [], set()
     nontrivial = False
     for order in all_orders(scn):
@@ -796,6 +798,7 @@ def initasync_scenarios():
 
 
 def scenarios(rng, tier):
+    yield from ainit_scenarios(rng, tier)
     yield from fixed_scenarios()
     yield from initasync_scenarios()
     yield from single_block_scenarios()
@@ -847,6 +850,8 @@ def _drop_block(scn, k):
 
 
 def shrink(scn):
+    if 'ainit' in scn:
+        return
     orders = all_orders(scn)
     if len(orders) > 1:
         for o in orders:
@@ -1024,6 +1029,8 @@ def oracle_run(scn, obs):
 
 
 def oracle(scn, res):
+    if 'ainit' in scn:
+        return oracle_ainit(scn, res)
     out = []
     for obs in res['runs']:
         out += oracle_run(scn, obs)
@@ -1049,3 +1056,139 @@ def oracle(scn, res):
             seen.add(v['clause'])
             uniq.append(v)
     return uniq
+
+
+# ----------------------------------------------------------------------------- constructors, the init waiter
+
+from fractions import Fraction as _Fraction
+
+
+async def _never():
+    await asyncio.Event().wait()
+
+
+_IACOROS = {'empty_list': [], 'empty_tuple': (), 'list1': [_never], 'tuple2': (_never, 1), 'str': 'abc',
+            'empty_str': '', 'int': 5, 'none': None, 'dict': {1: 2}, 'range': range(2), 'bytes': b'x', 'set': {1}}
+_INTERVALS = [None, 0, 0.0, -1, -0.5, 1, 0.5, 2, '1s', '0s', '2m', '1.5s', '0.0s']
+
+
+def ainit_scenarios(rng, tier):
+    for x in _INTERVALS:
+        yield {'ainit': 'vpctor', 'interval': x}
+    for k in _IACOROS:
+        yield {'ainit': 'iactor', 'coro': k}
+    vals = [None, 0, False, '', 7, 8]
+    n = 40 if tier == 'quick' else 400
+    for _ in range(n):
+        polls = [(rng.choice(vals) if rng.random() < 0.45 else 'UNDEF', rng.random() < 0.3)
+                 for _ in range(rng.randint(1, 5))]
+        yield {'ainit': 'polls', 'polls': [[v, bool(c)] for v, c in polls]}
+
+
+def run_ainit(scn):
+    import collections.abc
+    kind = scn['ainit']
+    lines, trace = [], []
+    obs = {}
+    if kind == 'vpctor':
+        x = scn['interval']
+        per = edzed.utils.time_period(x)
+        edzed.reset_circuit()
+        try:
+            edzed.ValuePoll('v', func=lambda: 1, interval=x)
+            res = 'ok'
+        except Exception as err:        # pylint: disable=broad-except
+            res = 'err ' + type(err).__name__
+        lines.append('ainit vpctor ' + ('n' if per is None else '{0.numerator}/{0.denominator}'.format(_Fraction(per))))
+        trace.append(res)
+        obs = {'period': per, 'res': res}
+    elif kind == 'iactor':
+        x = _IACOROS[scn['coro']]
+        edzed.reset_circuit()
+        try:
+            edzed.InitAsync('i', init_coro=x)
+            res = 'ok'
+        except Exception as err:        # pylint: disable=broad-except
+            res = 'err ' + type(err).__name__
+        isseq = isinstance(x, collections.abc.Sequence)
+        lines.append(f'ainit iactor {int(isseq)} {int(bool(x))}')
+        trace.append(res)
+        obs = {'isseq': isseq, 'nonempty': bool(x), 'res': res}
+    else:
+        polls = scn['polls']
+        edzed.reset_circuit()
+        circuit = edzed.get_circuit()
+        state = {'n': 0}
+
+        async def later(v):
+            return v
+
+        def func():
+            k = state['n']
+            state['n'] += 1
+            if k >= len(polls):
+                return edzed.UNDEF
+            v, co = polls[k]
+            v = edzed.UNDEF if v == 'UNDEF' else v
+            return later(v) if co else v
+        vp = edzed.ValuePoll('vp', func=func, interval=1, init_timeout=100, initdef=99)
+        samples = []
+
+        async def main(loop):
+            simtask = asyncio.create_task(circuit.run_forever())
+            for k in range(len(polls)):
+                await vtime.advance_to(loop, k * SEC + SEC // 2)
+                ev = vp._init_event
+                samples.append((ev.is_set() if ev is not None else None, vp.output, circuit.is_ready()))
+            try:
+                await circuit.shutdown()
+            except BaseException:       # pylint: disable=broad-except
+                pass
+            del simtask
+        vtime.run(main)
+        lines.append('ainit vpstart')
+        trace.append('ok')
+        for (v, co), (is_set, out, ready) in zip(polls, samples):
+            lines.append(f"ainit poll {'u' if v == 'UNDEF' else _v(v)} {int(co)}")
+            try:
+                outs = _v(out) if out is not edzed.UNDEF else 'u'
+            except ValueError:
+                outs = 'unencodable'        # e.g. a coroutine object that was never awaited
+            evs = '-' if is_set is None else str(int(is_set))
+            trace.append(f"again ev={evs} out={outs} ready={int(bool(is_set))}")
+        obs = {'samples': [(a, repr(b), c) for a, b, c in samples]}
+        obs['raw'] = samples
+    return {'lines': lines, 'trace': trace, 'tags': [f'ainit={kind}'], 'nontrivial': True, 'obs': obs}
+
+
+def oracle_ainit(scn, res):
+    """documented behaviour, independently of the model"""
+    out = []
+    kind = scn['ainit']
+    obs = res['obs']
+    if kind == 'vpctor':
+        per = obs['period']
+        want = 'ok' if (per is not None and per > 0) else 'err ValueError'
+        if obs['res'] != want:
+            out.append({'clause': 'valuepoll_interval_must_be_positive',
+                        'what': f"ValuePoll(interval={scn['interval']!r}): {obs['res']}, expected {want}"})
+    elif kind == 'iactor':
+        want = 'err TypeError' if not obs['isseq'] else ('err ValueError' if not obs['nonempty'] else 'ok')
+        if obs['res'] != want:
+            out.append({'clause': 'initasync_init_coro_must_be_nonempty_sequence',
+                        'what': f"InitAsync(init_coro={scn['coro']}): {obs['res']}, expected {want}"})
+    else:
+        # the first result other than UNDEF initialises the block and releases the waiter; UNDEF is skipped
+        cur, released = edzed.UNDEF, False
+        for k, ((v, _co), (is_set, o, _ready)) in enumerate(zip(scn['polls'], obs['raw'])):
+            if v != 'UNDEF':
+                released = True
+                if cur is edzed.UNDEF or not cur == v:      # set_output: a value equal to the output changes nothing
+                    cur = v
+            same = (o is cur) if cur is edzed.UNDEF else (o is not edzed.UNDEF and type(o) is type(cur) and o == cur)
+            if is_set != released or not same:
+                out.append({'clause': 'valuepoll_poll_initialises_undef_skipped',
+                            'what': f"after poll {k} ({scn['polls'][:k + 1]}): waiter set={is_set}, output {o!r}; "
+                                    f"expected set={released}, output {cur!r}"})
+                break
+    return out
